@@ -461,7 +461,78 @@ func printMap(w io.Writer, title string, m map[string]int) {
 	}
 }
 
-func SelfTestMain(args []string) int { fmt.Println("selftest: not yet"); return 0 }
+// SelfTestMain checks the tool chain end to end before any property check is
+// trusted: the three solvers answer canned queries identically, a planted
+// violation is found by the solver and reproduced natively (vacuity guard),
+// and a known-true statement is proved with the sampled paths agreeing with
+// the native build.
+func SelfTestMain(args []string) int {
+	ok := true
+	fail := func(f string, a ...interface{}) { ok = false; fmt.Printf("selftest FAIL: "+f+"\n", a...) }
+	// 1. solvers
+	canned := []struct{ q, want string }{
+		{"(declare-const x (_ BitVec 64))(assert (= (bvmul x #x0000000000000003) #x0000000000000015))(assert (bvult x #x0000000000000010))(check-sat)", "sat"},
+		{"(declare-const x (_ BitVec 8))(assert (bvugt (bvand x #x0f) #x0f))(check-sat)", "unsat"},
+		{"(declare-const f (_ FloatingPoint 11 53))(assert (fp.lt (fp.mul RNE f f) ((_ to_fp 11 53) RNE (- 1.0))))(check-sat)", "unsat"},
+	}
+	for _, kind := range []string{"z3", "z3-new", "cvc5", "cvc5-int"} {
+		for i, cq := range canned {
+			if kind == "cvc5-int" && i == 2 {
+				continue
+			}
+			got, err := sym.OneShot(kind, cq.q, 20000)
+			if err != nil || got != cq.want {
+				fail("solver %s query %d: got %q err %v want %s", kind, i, got, err, cq.want)
+			}
+		}
+	}
+	// 2. pipeline
+	opt := &Options{Repo: "/repo", HarnessDir: filepath.Join(verifDir(), "harness"), Workers: 8, NativeSamples: 8, MaxViolations: 8, SolverTimeoutMs: 10000}
+	if r := os.Getenv("VERIF_REPO"); r != "" {
+		opt.Repo = r
+	}
+	run := func(fn string) *Result {
+		o := *opt
+		o.Solver = "cvc5-int-oneshot"
+		o.TimeoutS = 200
+		res, err := RunHarness(&Harness{Pkg: "profile", Fn: fn, Name: fn, MaxDecisions: 2000}, &o)
+		if err != nil {
+			fail("%s: %v", fn, err)
+			return nil
+		}
+		return res
+	}
+	if res := run("VerifSelfTestWitness"); res != nil {
+		var gotAssert, gotPanic bool
+		for _, v := range res.Violations {
+			if v.V.Label == "selftest.witness" && v.Reproduced {
+				gotAssert = true
+			}
+			if v.V.Kind == "panic" && v.Reproduced {
+				gotPanic = true
+			}
+		}
+		if !gotAssert {
+			fail("planted assertion violation not found or not reproduced natively")
+		}
+		if !gotPanic {
+			fail("planted nil dereference not found or not reproduced natively")
+		}
+	}
+	if res := run("VerifSelfTestProof"); res != nil {
+		if len(res.Violations) != 0 || res.Run.Stats.AssertsProved == 0 || res.Run.Stats.AssertsUnknown != 0 {
+			fail("proof harness: violations=%d proved=%d unknown=%d", len(res.Violations), res.Run.Stats.AssertsProved, res.Run.Stats.AssertsUnknown)
+		}
+		if res.SamplesChecked == 0 || res.SamplesAgreed != res.SamplesChecked {
+			fail("proof harness: native cross-validation %d/%d", res.SamplesAgreed, res.SamplesChecked)
+		}
+	}
+	if !ok {
+		return 2
+	}
+	fmt.Println("selftest: ok (solvers agree on canned queries; planted violation and panic found and reproduced natively; varint round trip proved)")
+	return 0
+}
 
 func ParseBounds(s string) map[string]int {
 	m := map[string]int{}
